@@ -419,6 +419,8 @@ def fast_refill(ck, P, rule, fns=None):
 def run(ck):
     P = prog("K1")
     ck.configs.add("K1")
+    from .. import linear as _lin
+    ck.floor("SIB/same-terms-same-threshold", _lin.same_threshold(ck, P, [f for f in sorted(P.fns.values(), key=lambda f: f.path) if f.path.startswith(Z + "inflate::")]), 1)
     guard_calls(ck, P)
     loop_backedge_guard(ck, P)
     who_callers(ck, P)
